@@ -478,7 +478,7 @@ class VQESolver:
                                                           n_spinorbitals=self.molecule.n_active_sos,
                                                           n_electrons=self.molecule.n_active_electrons,
                                                           up_then_down=self.up_then_down,
-                                                          spin=self.molecule.spin)
+                                                          spin=self.molecule.active_spin)
             qubit_hamiltonian2.compress()
 
             # Run through each qubit term separately, use previously calculated result for the qubit term or
@@ -618,7 +618,7 @@ class VQESolver:
                                                           n_spinorbitals=self.molecule.n_active_sos,
                                                           n_electrons=self.molecule.n_active_electrons,
                                                           up_then_down=self.up_then_down,
-                                                          spin=self.molecule.spin)
+                                                          spin=self.molecule.active_spin)
             qubit_hamiltonian2.compress()
 
             # Run through each qubit term separately, use previously calculated result for the qubit term or
